@@ -36,10 +36,14 @@ func c07Keep(w *World, su Suite, obj *security.IKESAKey, want ref.IKEKeys, who s
 func c07Final(w *World) {
 	kept, _ := w.ext["c07_kept"].([]c07Kept)
 	for _, k := range kept {
-		if k.step == len(kept)-1 && len(kept) == 1 {
-			continue
-		}
+
 		probe := NewRng(uint64(k.step) ^ 0x77).Bytes(24)
+		if k.step%2 == 0 {
+			// callers log their SAs: printing a key object must not change it
+			r := &callResult{}
+			guard(r, func() { _ = k.obj.String() })
+			w.stats.inc("c07_objects_printed_before_reinspection")
+		}
 		before := len(w.viol)
 		c07CheckObjects(w, k.su, k.obj, k.want, k.who+" (re-inspected after later derivations)", probe, uint64(k.step))
 		for i := before; i < len(w.viol); i++ {
